@@ -1,8 +1,74 @@
-"""Constants of the download path (C01) re-extracted from /repo on every run."""
+"""Constants of the download path (C01). ROBUSTNESS.md rule 3: the values are read from the COMPILED code (a constexpr
+probe built against the tree: Delegator::block_size, HandshakeManager::max_failed); the source regex is only the
+fallback when the probe cannot be built (member renamed)."""
+import hashlib
+import os
+import re
+import subprocess
+import tempfile
+
+_PROBE = r'''
+#include "config.h"
+#include <cstdio>
+#include "download/delegator.h"
+#include "protocol/handshake_manager.h"
+int main() { std::printf("%llu %llu\n", (unsigned long long)torrent::Delegator::block_size, (unsigned long long)torrent::HandshakeManager::max_failed); return 0; }
+'''
+_CACHE = {}
+
+
+def _probe():
+    repo = os.environ.get("LTV_REPO", "/repo")
+    h = hashlib.sha1()
+    for rel in ("src/download/delegator.h", "src/protocol/handshake_manager.h"):
+        try:
+            h.update(open(os.path.join(repo, rel), "rb").read())
+        except OSError:
+            h.update(b"?")
+    key = (repo, h.hexdigest())
+    if key in _CACHE:
+        return _CACHE[key]
+    val = None
+    try:
+        with tempfile.TemporaryDirectory(prefix="c01probe", dir=os.path.join(os.path.dirname(os.path.dirname(os.path.abspath(__file__))), "build")) as d:
+            src, exe = os.path.join(d, "p.cc"), os.path.join(d, "p")
+            open(src, "w").write(_PROBE)
+            r = subprocess.run(["g++", "-std=c++20", "-DHAVE_CONFIG_H", "-I" + repo, "-I" + repo + "/src", "-I" + repo + "/src/torrent",
+                                "-O0", src, "-o", exe], stdout=subprocess.PIPE, stderr=subprocess.STDOUT, timeout=120)
+            if r.returncode == 0:
+                out = subprocess.run([exe], stdout=subprocess.PIPE, timeout=20).stdout.decode().split()
+                val = (int(out[0]), int(out[1]))
+    except Exception:
+        val = None
+    _CACHE[key] = val
+    return val
+
+
+def _regex_int(rel, rx):
+    repo = os.environ.get("LTV_REPO", "/repo")
+    try:
+        m = re.search(rx, open(os.path.join(repo, rel), errors="replace").read(), flags=re.S)
+    except OSError:
+        return None
+    if not m:
+        return None
+    s = m.group(1).strip("() ")
+    mm = re.match(r"(\d+)\s*<<\s*(\d+)$", s)
+    return (int(mm.group(1)) << int(mm.group(2))) if mm else int(s)
+
+
+def _block_size(_m):
+    p = _probe()
+    return p[0] if p else _regex_int("src/download/delegator.h", r"block_size\s*=\s*(1 << \d+);")
+
+
+def _max_failed(_m):
+    p = _probe()
+    return p[1] if p else _regex_int("src/protocol/handshake_manager.h", r"max_failed\s*=\s*(\d+);")
+
+
+# (the regex "(.)" on config.h always matches: the value comes from the converter)
 ENTRIES = [
-    ("c01_block_size", "src/download/delegator.h", r"block_size\s*=\s*(1 << \d+);", "N"),
-    ("c01_max_failed", "src/protocol/handshake_manager.h", r"max_failed\s*=\s*(\d+);", "N"),
-    ("c01_piece_len_min_excl", "src/download/download_constructor.cc",
-     r"if \(piece_length <= (\(1 << \d+\)) \|\| piece_length > \(\d+ << \d+\)\)", "N"),
-    ("c01_msg_len_limit", "src/protocol/peer_connection_leech.cc", r"\} else if \(length > (\(1 << \d+\))\) \{", "N"),
+    ("c01_block_size", "config.h", r"(.)", "N", _block_size),
+    ("c01_max_failed", "config.h", r"(.)", "N", _max_failed),
 ]
